@@ -837,10 +837,29 @@ def replay_roundtrip(case):
     from pyrtcm.rtcmreader import RTCMReader
     payload = bytes.fromhex(case['payload'])
     failed = []
+    if case.get('frame'):
+        # a message obtained through parse() from a frame that need not be canonical (reserved header bits set / trailer unchecked)
+        fr = bytes.fromhex(case['frame'])
+        if case.get('fixcrc'):
+            fr = fr[:-3] + crc24q_ref(fr[:-3]).to_bytes(3, "big")
+        try:
+            m5 = RTCMReader.parse(fr, validate=case.get('validate', 1))
+        except Exception:  # noqa: rejecting such a frame is allowed
+            m5 = None
+        if m5 is not None:
+            want5 = b"\xd3" + len(fr[3:-3]).to_bytes(2, "big") + fr[3:-3]
+            want5 += crc24q_ref(want5).to_bytes(3, "big")
+            try:
+                if m5.payload != fr[3:-3]:
+                    failed.append("parse(frame).payload is not the frame minus header and trailer")
+                elif m5.serialize() != want5:
+                    failed.append(f"parse({fr.hex()}, validate={case.get('validate', 1)}).serialize() = {m5.serialize().hex()}, canonical frame is {want5.hex()}")
+            except Exception as e:  # noqa
+                failed.append(f"exception {type(e).__name__}: {e}")
     try:
         m = RTCMMessage(payload=payload)
     except Exception as e:  # noqa
-        return {"reproduced": False, "detail": f"payload does not parse ({type(e).__name__}): nothing to round-trip"}
+        return {"reproduced": bool(failed), "failed": failed, "detail": "; ".join(failed)[:500] or f"payload does not parse ({type(e).__name__}): nothing to round-trip"}
     try:
         f = m.serialize()
         want = b"\xd3" + len(payload).to_bytes(2, "big") + payload
